@@ -92,6 +92,10 @@ def rule_r1(ctx: Context, R: Reporter, T: Tracer):
         from_config = [o for o in origs if o.kind == "user" and any(ch.startswith(tuple(f"{c}(" for c in cfg_classes)) for ch in o.chain)]
         dead = False
         for (t, pol) in conds_holding_at(flow_of(s.func.node).cfg, at):
+            # truthiness of the seed (`if seed:`) treats the valid seed 0 as "no seed"
+            if norm_text(t) == norm_text(arg) and pol:
+                R.check("C09.r1", "the seed guard is a None test, not a truthiness test", False, s.func, t,
+                        msg=f"{s.func.short}: `if {unparse(t)}:` skips seeding for random_state=0, a valid seed: runs with seed 0 are not reproducible", key="seed-truthiness-guard")
             nt = is_none_test(t)
             if nt is not None and norm_text(nt[0]) == norm_text(arg) and nt[1] == pol:
                 dead = True  # guarded by `<seed> is None`: seeds with None only
